@@ -7,7 +7,9 @@ single sparse files beyond 4 GiB at the default and at a 1 MiB chunk size (the d
 low chunks, marked complete with the real Sidecar API, so only the chunks around the 2^32 byte
 mark travel; sampled regions and the length are compared); leftovers of an attempt that used
 another chunk size (partly written file plus metadata with holes, equal and different chunk counts);
-trees with symbolic links to regular files; chunk sizes of several MiB up to 64 MiB."""
+trees with symbolic links to regular files; chunk sizes of several MiB up to 64 MiB; sources with
+runs of zeros covering whole chunks over stale non-zero files; several selections with the same base
+name given out of lexical order, opened through the application's real path resolver."""
 import vlib
 import transfer_common as tc
 import e2e_common
@@ -29,7 +31,7 @@ def run(tier, seed):
     e2e_common.report_rules(v, PROP, res['trace_rules'])
     # two input regions outside the grid: a non-empty output directory (stale longer / shorter files at the
     # same paths) and single files beyond 4 GiB (sparse, only the chunks around the 2^32 byte mark travel)
-    sp = vlib.run_vh_sharded(['xfer-special', '-seed', str(seed), '-groups', 'prepop,manychunks,manyfiles,large,rechunk,symlink,geometry'], 8, timeout=1800)
+    sp = vlib.run_vh_sharded(['xfer-special', '-seed', str(seed), '-groups', 'prepop,manychunks,manyfiles,large,rechunk,symlink,geometry,multiselect'], 8, timeout=1800)
     for viol in sp['violations']:
         if viol['sig'].get('property') == 'C01':
             v.violation(viol['sig'], viol.get('replay'))
